@@ -179,6 +179,14 @@ class _Spell(ast.NodeTransformer):
                 n.args = [kw[0].value]
                 n.keywords = [k_ for k_ in n.keywords if k_ is not kw[0]]
                 return n
+        # X.clip(lo, hi) / clip(X, lo, hi) -> minimum(hi, maximum(lo, X))   (numpy defines clip that way)
+        if not n.keywords and ((isinstance(f, ast.Attribute) and f.attr == "clip" and len(n.args) == 2
+                                and not (isinstance(f.value, ast.Name) and f.value.id in ("np", "numpy")))
+                               or (isinstance(f, ast.Name) and self.np.get(f.id) == "clip" and len(n.args) == 3)):
+            self.k += 1
+            X, lo, hi = (f.value, n.args[0], n.args[1]) if isinstance(f, ast.Attribute) else (n.args[0], n.args[1], n.args[2])
+            inner = ast.Call(func=ast.Name(id="maximum", ctx=ast.Load()), args=[lo, X], keywords=[])
+            return ast.copy_location(ast.Call(func=ast.Name(id="minimum", ctx=ast.Load()), args=[hi, inner], keywords=[]), n)
         # set(A).isdisjoint(B) -> not any(j in A for j in B)
         if isinstance(f, ast.Attribute) and f.attr == "isdisjoint" and len(n.args) == 1 and not n.keywords and isinstance(f.value, ast.Call) \
                 and isinstance(f.value.func, ast.Name) and f.value.func.id in ("set", "frozenset") and len(f.value.args) == 1:
